@@ -188,8 +188,10 @@ func (o *histogramOperator) loadSeries(ctx context.Context) error {
 		if err != nil {
 			continue
 		}
-		lbls, _ = DropMetricName(lbls)
 
+		// Buckets belong to one histogram when they agree on all labels but le,
+		// the metric name included, as in the Prometheus engine. The name is
+		// removed from the output series only.
 		hasher.Reset()
 		hashBuf = lbls.Bytes(hashBuf)
 		if _, err := hasher.Write(hashBuf); err != nil {
@@ -199,6 +201,7 @@ func (o *histogramOperator) loadSeries(ctx context.Context) error {
 		seriesHash := hasher.Sum64()
 		seriesID, ok := seriesHashes[seriesHash]
 		if !ok {
+			lbls, _ = DropMetricName(lbls)
 			o.series = append(o.series, lbls)
 			seriesID = len(o.series) - 1
 			seriesHashes[seriesHash] = seriesID
